@@ -8,6 +8,7 @@ import PtnModel.Driver.Heap
 import PtnModel.Driver.Evolution
 import PtnModel.Driver.Krylov
 import PtnModel.Driver.Hamiltonian
+import PtnModel.Driver.HamiltonianGauge
 /-!
 Line-protocol driver: one JSON object per input line (`{"op": name, ...}`), one JSON line out.
 Compiled to `.lake/build/bin/ptndriver`; imports nothing from Mathlib.
@@ -23,7 +24,8 @@ def handlers : List Handler := [
   Ptn.Drv.HeapDrv.handle,
   Ptn.Drv.EvoDrv.handle,
   Ptn.Drv.Krylov.handle,
-  Ptn.Drv.Ham.handle
+  Ptn.Drv.Ham.handle,
+  Ptn.Drv.HamGauge.handle
 ]
 
 def dispatch (line : String) : String :=
